@@ -176,7 +176,9 @@ def rand_token(rnd):
         return (')',)
     if k < 0.97:
         return (',',)
-    return ('junk', rnd.choice(['@', '$', '#', '?', ';', ':', '~', '`', '=', '&', '|', '.', '[', ']', "'", '"', '\\', '{', '^']))
+    # (no quote or bracket characters: a stray ' " [ or ] would fuse with later tokens into a string literal / bracketed name, so the
+    # token list would no longer be the tokenisation of the text)
+    return ('junk', rnd.choice(['@', '$', '#', '?', ';', ':', '~', '`', '=', '&', '|', '.', '\\', '{', '}', '^']))
 
 
 def recognise(toks):
